@@ -308,6 +308,12 @@ theorem cs_send_change (t : Txt) (env : Env) (s : St) (hm : s.mode = .run) :
     changeSends (exec (.send .change t) env s).tr = changeSends s.tr ++ [t.lines env] := by
   simp [exec, hm, changeSends_append, changeSends]
 
+/-- `cmd` with any text: one packet on the wire, then only reading and checking -/
+theorem cs_console_cmd_txt (n : String) (l : List String) (t : Txt) (rest : Sess) (hrest : noChange rest = true)
+    (env : Env) (s : St) (hm : s.mode = .run) :
+    changeSends (exec (.call n l (Send .change t ;; rest)) env s).tr = changeSends s.tr ++ [t.lines env] := by
+  rw [cs_call, cs_seq_right _ _ hrest, Send, cs_call, sendBody, cs_send_change _ _ _ hm]
+
 /-- ASA / IOS / Linux `cmd`: one packet on the wire, then only reading and checking -/
 theorem cs_console_cmd (n : String) (l : List String) (rest : Sess) (hrest : noChange rest = true)
     (env : Env) (s : St) (hm : s.mode = .run) :
